@@ -460,6 +460,31 @@ package sstables
 
 // search is slices.BinarySearchFunc over bytes.Compare; its postcondition is assumed (library generic with a callback) and
 // exercised by the bounded driver table_model.
+// Loading the in-memory index: the index file is read to its end or the load fails - a read error never yields a shorter
+// index (keys silently absent) - and the index reader is closed on every path once it was opened.
+//@ func (*SliceKeyIndexLoader).Load
+//@   props C03 C09 C19
+//@   exit [C03:reader-errors-fail-the-load] (called(proto.NewReader, 0) && callres(proto.NewReader, 0, 1) != nil) ||
+//@        (called(ReaderI.Open, 0) && callres(ReaderI.Open, 0, 0) != nil) ==> r1 != nil && r0 == nil
+//@   exit [C19:index-reader-closed] called(ReaderI.Open, 0) && callres(ReaderI.Open, 0, 0) == nil ==> called(ReaderI.Close, 0)
+//@   exit [C03,C09:an-index-is-returned-only-after-the-end-of-the-file] r1 == nil ==> r0 != nil && called(ReaderI.ReadNext, 0) && errIs(callres(ReaderI.ReadNext, 0, 1), io.EOF)
+//@   loop 0
+//@     invariant reader != nil && record != nil
+//@     invariant [C03,C09:a-failed-read-stops-the-load] called(ReaderI.ReadNext, 0) ==> callres(ReaderI.ReadNext, 0, 1) == nil
+
+// (SkipListIndexLoader.Load has the same shape but inserts into a skip list, whose Insert panics on a duplicate key: that
+//  precondition is a statement about the bytes of the index file, which no contract here can discharge - the loader stays
+//  with the bounded table_model driver, which runs every loader.)
+//@ func (*MapKeyIndexLoader).Load
+//@   props C03 C09 C19
+//@   exit [C03:reader-errors-fail-the-load] (called(proto.NewReader, 0) && callres(proto.NewReader, 0, 1) != nil) ||
+//@        (called(ReaderI.Open, 0) && callres(ReaderI.Open, 0, 0) != nil) ==> r1 != nil && r0 == nil
+//@   exit [C19:index-reader-closed] called(ReaderI.Open, 0) && callres(ReaderI.Open, 0, 0) == nil ==> called(ReaderI.Close, 0)
+//@   exit [C03,C09:an-index-is-returned-only-after-the-end-of-the-file] r1 == nil ==> r0 != nil && called(ReaderI.ReadNext, 0) && errIs(callres(ReaderI.ReadNext, 0, 1), io.EOF)
+//@   loop 0
+//@     invariant reader != nil && record != nil
+//@     invariant [C03,C09:a-failed-read-stops-the-load] called(ReaderI.ReadNext, 0) ==> callres(ReaderI.ReadNext, 0, 1) == nil
+
 //@ func (*SliceKeyIndex).search
 //@   assumed
 //@   bounded table_model written table = read table: 6 key/value sequences (length 0..3; empty key, nil / empty / marker values, a last key that dominates the index) x stream and skip-list writer x slice, skip-list and disk index; Contains/Get/Scan/ScanStartingAt/ScanRange for 12+ probes and all probe pairs, each twice
@@ -558,6 +583,18 @@ package sstables
 //@ spec func dxCacheOK(s *DiskKeyIndex) Bool = forall o :: 0 <= o && mhas(s.offsetCache, o) ==> mget(s.offsetCache, o) != nil && dxHas(s.reader, o) &&
 //@      content(mget(s.offsetCache, o).Key) == dxKey(s.reader, dxAt(s.reader, o)) &&
 //@      mget(s.offsetCache, o).ValueOffset == dxVal(s.reader, dxAt(s.reader, o)) && mget(s.offsetCache, o).Checksum == dxSum(s.reader, dxAt(s.reader, o))
+
+// A freshly loaded disk index starts with a valid (empty) offset cache over the reader it was given; Open opens that reader.
+//@ func (*DiskIndexLoader).Load
+//@   props C03 C09
+//@   ensures [reader-error-fails-the-load] r1 != nil ==> r0 == nil
+//@   exit [C03,C09:starts-with-a-valid-cache] r1 == nil ==> r0 != nil && idx.reader == callres(proto.NewMMapProtoReaderWithPath, 0, 0) && idx.reader != nil && dxCacheOK(idx) && mlen(idx.offsetCache) == 0
+//@   exit [reader-error-reported] callres(proto.NewMMapProtoReaderWithPath, 0, 1) != nil ==> r1 != nil
+
+//@ func (*DiskKeyIndex).Open
+//@   props C03 C19
+//@   requires s.reader != nil
+//@   exit [open-reaches-the-reader] called(ReadAtI.Open, 0) && r0 == callres(ReadAtI.Open, 0, 0)
 
 //@ func (*DiskKeyIndex).findAt
 //@   props C03 C09
